@@ -23,67 +23,69 @@ var externals = map[string]externalFn{}
 
 func init() {
 	for k, v := range map[string]externalFn{
-		"fmt.Sprintf":                           extSprintf,
-		"fmt.Printf":                            extPrintf,
-		"fmt.Println":                           extPrintln,
-		"fmt.Print":                             extPrint,
-		"fmt.Sprint":                            extSprint,
-		"fmt.Sprintln":                          extSprintln,
-		"fmt.Errorf":                            extErrorf,
-		"fmt.Fprintf":                           extFprintf,
-		"fmt.Fprintln":                          extFprintln,
-		"fmt.Fprint":                            extFprint,
-		"os.ReadFile":                           extReadFile,
-		"os.WriteFile":                          extWriteFile,
-		"os.Exit":                               extExit,
-		"os.IsNotExist":                         extIsNotExist,
-		"os.OpenFile":                           extOpenFile,
-		"os.Create":                             extCreate,
-		"(*os.File).WriteString":                extFileWriteString,
-		"(*os.File).Write":                      extFileWrite,
-		"(*os.File).Close":                      extFileClose,
-		"(*os.File).Sync":                       extFileSync,
-		"errors.Is":                             extErrorsIs,
-		"(*bytes.Buffer).WriteString":           extBufWriteString,
-		"(*bytes.Buffer).WriteByte":             extBufWriteByte,
-		"(*bytes.Buffer).WriteRune":             extBufWriteRune,
-		"(*bytes.Buffer).String":                extBufString,
-		"(*bytes.Buffer).Len":                   extBufLen,
-		"(*bytes.Buffer).Reset":                 extBufReset,
-		"(*strings.Builder).Reset":              extBufReset,
-		"(*strings.Builder).Write":              extBufWrite,
-		"(*bytes.Buffer).Write":                 extBufWrite,
-		"maps.clone":                            extMapsClone,
-		"(*strings.Builder).WriteString":        extBufWriteString,
-		"(*strings.Builder).WriteByte":          extBufWriteByte,
-		"(*strings.Builder).WriteRune":          extBufWriteRune,
-		"(*strings.Builder).String":             extBufString,
-		"(*strings.Builder).Len":                extBufLen,
-		"(*strings.Builder).Grow":               func(fr *frame, args []value) value { return nil },
-		"(*bytes.Buffer).Grow":                  func(fr *frame, args []value) value { return nil },
-		"strings.Join":                          extStringsJoin,
-		"reflect.ValueOf":                       extReflectValueOf,
-		"reflect.TypeOf":                        extReflectTypeOf,
-		"(*reflect.rtype).Comparable":           extRtypeComparable,
-		"(*reflect.rtype).Kind":                 extRtypeKind,
-		"(*reflect.rtype).String":               extRtypeString,
-		"(reflect.Value).Kind":                  extReflectKind,
-		"(reflect.Value).Int":                   extReflectInt,
-		"(reflect.Value).Uint":                  extReflectUint,
-		"(reflect.Value).Float":                 extReflectFloat,
-		"(reflect.Value).String":                extReflectString,
-		"(reflect.Value).Bool":                  extReflectBool,
-		"(reflect.Value).Pointer":               extReflectPointer,
-		"internal/reflectlite.ValueOf":          extReflectValueOf,
-		"(internal/reflectlite.Value).Len":      extReflectLen,
-		"internal/reflectlite.Swapper":          extReflectSwapper,
-		"reflect.Swapper":                       extReflectSwapper,
-		"(reflect.Value).Len":                   extReflectLen,
-		"(reflect.Value).Cap":                   extReflectCap,
-		"(reflect.Value).IsNil":                 extReflectIsNil,
-		"github.com/google/go-cmp/cmp.Equal":    extCmpEqual,
-		"github.com/google/go-cmp/cmp.Exporter": extCmpExporter,
-		"github.com/google/go-cmp/cmp.Comparer": extCmpComparer,
+		"fmt.Sprintf":                             extSprintf,
+		"fmt.Printf":                              extPrintf,
+		"fmt.Println":                             extPrintln,
+		"fmt.Print":                               extPrint,
+		"fmt.Sprint":                              extSprint,
+		"fmt.Sprintln":                            extSprintln,
+		"fmt.Errorf":                              extErrorf,
+		"fmt.Fprintf":                             extFprintf,
+		"fmt.Fprintln":                            extFprintln,
+		"fmt.Fprint":                              extFprint,
+		"os.ReadFile":                             extReadFile,
+		"os.WriteFile":                            extWriteFile,
+		"os.Exit":                                 extExit,
+		"os.IsNotExist":                           extIsNotExist,
+		"os.OpenFile":                             extOpenFile,
+		"os.Create":                               extCreate,
+		"(*os.File).WriteString":                  extFileWriteString,
+		"(*os.File).Write":                        extFileWrite,
+		"(*os.File).Close":                        extFileClose,
+		"(*os.File).Sync":                         extFileSync,
+		"errors.Is":                               extErrorsIs,
+		"(*bytes.Buffer).WriteString":             extBufWriteString,
+		"(*bytes.Buffer).WriteByte":               extBufWriteByte,
+		"(*bytes.Buffer).WriteRune":               extBufWriteRune,
+		"(*bytes.Buffer).String":                  extBufString,
+		"(*bytes.Buffer).Len":                     extBufLen,
+		"(*bytes.Buffer).Reset":                   extBufReset,
+		"(*strings.Builder).Reset":                extBufReset,
+		"(*strings.Builder).Write":                extBufWrite,
+		"(*bytes.Buffer).Write":                   extBufWrite,
+		"maps.clone":                              extMapsClone,
+		"(*strings.Builder).WriteString":          extBufWriteString,
+		"(*strings.Builder).WriteByte":            extBufWriteByte,
+		"(*strings.Builder).WriteRune":            extBufWriteRune,
+		"(*strings.Builder).String":               extBufString,
+		"(*strings.Builder).Len":                  extBufLen,
+		"(*strings.Builder).Grow":                 func(fr *frame, args []value) value { return nil },
+		"(*bytes.Buffer).Grow":                    func(fr *frame, args []value) value { return nil },
+		"strings.Join":                            extStringsJoin,
+		"reflect.ValueOf":                         extReflectValueOf,
+		"reflect.TypeOf":                          extReflectTypeOf,
+		"(*reflect.rtype).Comparable":             extRtypeComparable,
+		"(*reflect.rtype).Kind":                   extRtypeKind,
+		"(*reflect.rtype).String":                 extRtypeString,
+		"(reflect.Value).Kind":                    extReflectKind,
+		"(reflect.Value).Int":                     extReflectInt,
+		"(reflect.Value).Uint":                    extReflectUint,
+		"(reflect.Value).Float":                   extReflectFloat,
+		"(reflect.Value).String":                  extReflectString,
+		"(reflect.Value).Bool":                    extReflectBool,
+		"(reflect.Value).Pointer":                 extReflectPointer,
+		"internal/reflectlite.ValueOf":            extReflectValueOf,
+		"(internal/reflectlite.Value).Len":        extReflectLen,
+		"internal/reflectlite.Swapper":            extReflectSwapper,
+		"reflect.Swapper":                         extReflectSwapper,
+		"(reflect.Value).Len":                     extReflectLen,
+		"(reflect.Value).Cap":                     extReflectCap,
+		"(reflect.Value).IsNil":                   extReflectIsNil,
+		"github.com/google/go-cmp/cmp.Equal":      extCmpEqual,
+		"github.com/google/go-cmp/cmp.Exporter":   extCmpExporter,
+		"github.com/google/go-cmp/cmp.Comparer":   extCmpComparer,
+		"github.com/google/go-cmp/cmp.Ignore":     extCmpIgnore,
+		"github.com/google/go-cmp/cmp.FilterPath": extCmpFilterPath,
 		"github.com/google/go-cmp/cmp/cmpopts.EquateEmpty": func(fr *frame, args []value) value {
 			return iface{t: types.Typ[types.Int], v: cmpOpt{kind: "equate-empty"}}
 		},
@@ -1439,13 +1441,15 @@ type cmpOpts struct {
 	equateEmpty      bool // cmpopts.EquateEmpty()
 	ignoreUnexported bool
 	comparers        []cmpOpt // cmp.Comparer(func(T, T) bool)
+	pathIgnores      []cmpOpt // cmp.FilterPath(pred, cmp.Ignore()): pred is run on a path ending in the struct field
 }
 
 // cmpOpt is the boxed marker value returned by the option constructors.
 type cmpOpt struct {
 	kind string
-	fn   value      // comparer: the function value
+	fn   value      // comparer / filterpath: the function value
 	pt   types.Type // comparer: its parameter type
+	in   string     // filterpath: kind of the filtered option (only "ignore")
 }
 
 func (i *interpreter) cmpEqualO(fr *frame, o cmpOpts, t types.Type, x, y value, depth int) *Term {
@@ -1512,6 +1516,9 @@ func (i *interpreter) cmpEqualO(fr *frame, o cmpOpts, t types.Type, x, y value, 
 		for k := 0; k < ut.NumFields(); k++ {
 			f := ut.Field(k)
 			if !f.Exported() && o.ignoreUnexported {
+				continue
+			}
+			if len(o.pathIgnores) > 0 && i.pathIgnored(fr, o, t, f.Name(), k) {
 				continue
 			}
 			if !f.Exported() && !o.allowUnexported {
@@ -1633,6 +1640,10 @@ func extCmpEqual(fr *frame, args []value) value {
 			o.ignoreUnexported = true
 		case "comparer":
 			o.comparers = append(o.comparers, m)
+		case "filterpath":
+			o.pathIgnores = append(o.pathIgnores, m)
+		case "ignore":
+			panic(pathAbort{"unsupported", "cmp.Equal with a bare cmp.Ignore()"})
 		}
 	}
 	x, y := args[0].(iface), args[1].(iface)
@@ -1793,6 +1804,50 @@ func extAppendRune(fr *frame, args []value) value {
 
 // cmp.Exporter(f): the model requires f to accept every type; it is probed
 // on a nil reflect.Type stand-in and must return true.
+// cmp.FilterPath(pred, cmp.Ignore()): pred is interpreted on a one-step path
+// whose Last() is a cmp.StructField carrying the field's name and index (the
+// part of the path API a predicate over field names uses)
+func (i *interpreter) pathIgnored(fr *frame, o cmpOpts, st types.Type, name string, idx int) bool {
+	cp := i.prog.ImportedPackage("github.com/google/go-cmp/cmp")
+	if cp == nil || cp.Type("StructField") == nil || cp.Type("structField") == nil {
+		panic(pathAbort{"unsupported", "cmp.FilterPath: go-cmp path types not loaded"})
+	}
+	sfT := cp.Type("StructField").Type()
+	innerT := cp.Type("structField").Type()
+	inner := zero(innerT).(structure)
+	ist := innerT.Underlying().(*types.Struct)
+	for k := 0; k < ist.NumFields(); k++ {
+		switch ist.Field(k).Name() {
+		case "name":
+			inner[k] = name
+		case "idx":
+			inner[k] = idx
+		}
+	}
+	var cell value = inner
+	step := iface{t: sfT, v: structure{&cell}}
+	path := []value{step}
+	for _, pi := range o.pathIgnores {
+		if i.asBool(call(i, fr, 0, pi.fn, []value{path})) {
+			return true
+		}
+	}
+	return false
+}
+
+func extCmpIgnore(fr *frame, args []value) value {
+	return iface{t: types.Typ[types.Int], v: cmpOpt{kind: "ignore"}}
+}
+
+func extCmpFilterPath(fr *frame, args []value) value {
+	oi, _ := args[1].(iface)
+	m, ok := oi.v.(cmpOpt)
+	if !ok || m.kind != "ignore" {
+		panic(pathAbort{"unsupported", "cmp.FilterPath around an option other than cmp.Ignore()"})
+	}
+	return iface{t: types.Typ[types.Int], v: cmpOpt{kind: "filterpath", fn: args[0], in: "ignore"}}
+}
+
 // cmp.Comparer(f): f must be func(T, T) bool
 func extCmpComparer(fr *frame, args []value) value {
 	a := args[0].(iface)
